@@ -391,7 +391,7 @@ theorem HSameS_of_carve (env : CEnv) :
       simp only [HybFreeS, Bool.and_eq_true] at hf
       simp only [CarveS, Bool.and_eq_true] at hc
       simp only [NoDeadVarlS, Bool.and_eq_true] at hn
-      simp only [HSameS, HSame_of_carveE _ c hf.1.2 hc.1.1.2 hn.1, HSameSs_of_carve env b hf.2 hc.2 hn.2, Bool.and_self]
+      simp only [HSameS, HSame_of_carveE _ c hf.1.1.2 hc.1.1.2 hn.1, HSameSs_of_carve env b hf.1.2 hc.2 hn.2, Bool.and_self]
 theorem HSameSs_of_carve (env : CEnv) :
     (ss : List CStmt) → HybFreeSs ss = true → CarveSs (CarveE env.assigned) env ss = true →
       NoDeadVarlSs ⟨env.assigned, Cfg.asCode⟩ ss = true → HSameSs ⟨env.assigned, Cfg.asCode⟩ ss = true
